@@ -71,11 +71,20 @@ MUTS = [
  ('N27-check-before-sep', 'parser.py', "                    sep_index += len(sep)\n                    _check_length(sep_index)", "                    _check_length(sep_index)\n                    sep_index += len(sep)", ['C10'], 'fail'),
  ('N28-masked-ok', 'frame_parser.py', '        if frame.mask:\n            log.warning(', '        if frame.mask and frame.is_control:\n            log.warning(', ['C04'], 'fail'),
  ('N29-reserved-code', 'websocket.py', 'if message.code in Status.invalid_codes:', 'if message.code is not None and message.code < 1000:', ['C08'], 'fail'),
+ # ---- sites added for the send side (send_compressed's frame, Frame.to_bytes, make_masking_key, the key choice, send_json)
+ ('R1-zframe-rsv1', 'session.py', 'payload=bytearray(compress(data)), rsv1=1)', 'payload=bytearray(compress(data)), rsv1=0)', ['C03'], 'fail'),
+ ('R2-keylen-8', 'mask.py', 'partial(os.urandom, 4)', 'partial(os.urandom, 8)', ['C03'], 'fail'),
+ ('R3-key-choice', 'frame.py', "                if masking_key is None\n", "                if masking_key is not None\n", ['C03'], 'fail'),
+ ('R4-tobytes-rsv', 'frame.py', 'rsv1=self.rsv1,', 'rsv1=self.rsv2,', ['C03'], 'fail'),
+ ('R5-json-guard', 'websocket.py', 'if kwargs and _obj is not Ellipsis:', 'if kwargs or _obj is not Ellipsis:', ['C03'], 'fail'),
+ ('R6-json-which', 'websocket.py', 'json.dumps(_obj if _obj is not Ellipsis else kwargs)', 'json.dumps(kwargs if _obj is not Ellipsis else _obj)', ['C03'], 'fail'),
+ ('R7-tobytes-fin', 'frame.py', "            payload=self.payload,\n            rsv1=self.rsv1,", "            payload=self.payload,\n            fin=self.fin,\n            rsv1=self.rsv1,", ['C03'], 'fail'),
  ('Q1-or-swapped', 'frame_parser.py', 'if frame.is_text or _is_text_continuation:', 'if _is_text_continuation or frame.is_text:', ['C05'], 'pass'),
  ('Q2-maxbytes-flipped', 'parser.py', 'self.max_bytes is not None and pos > self.max_bytes', 'self.max_bytes is not None and self.max_bytes < pos', ['C10'], 'pass'),
  ('Q3-status-eq', 'websocket.py', 'if response.status_code != 101:', 'if not response.status_code == 101:', ['C10'], 'pass'),
  ('Q4-len-lt2', 'message.py', 'elif len(payload) >= 2:', 'elif len(payload) > 1:', ['C08'], 'pass'),
  ('Q5-fin-ctrl-swapped', 'frame_parser.py', 'if frame.fin and not frame.is_control:', 'if not frame.is_control and frame.fin:', ['C05'], 'pass'),
+ ('S1-key-choice-flipped', 'frame.py', "                make_masking_key()\n                if masking_key is None\n                else masking_key", "                masking_key\n                if masking_key is not None\n                else make_masking_key()", ['C03'], 'pass'),
  ('P1-le125', 'frame.py', 'if length < 126:', 'if length <= 125:', ['C03'], 'pass'),
  ('P2-65536', 'frame.py', 'elif length < (1 << 16):', 'elif length < 65536:', ['C03'], 'pass'),
  ('P3-or-reordered', 'compression.py', 'wbits < 8 or wbits > 15', 'wbits > 15 or wbits < 8', ['C10'], 'pass'),
